@@ -183,10 +183,19 @@ class ReloadDaemon:
             return "crash", lines0, None
         self._scan_log()
         before = self.marks
-        tmp = d.conf_path + ".new"
-        with open(tmp, "w") as f:
-            f.write(text)
-        os.replace(tmp, d.conf_path)
+        # administrators edit the file either way: every second reload overwrites it in place (same inode, often the same
+        # size and the same second as the version the daemon has loaded), the others replace it by rename
+        self.nreload = getattr(self, "nreload", 0) + 1
+        if (self.nreload + os.getpid()) % 2:
+            with open(d.conf_path, "r+") as f:
+                f.seek(0)
+                f.write(text)
+                f.truncate()
+        else:
+            tmp = d.conf_path + ".new"
+            with open(tmp, "w") as f:
+                f.write(text)
+            os.replace(tmp, d.conf_path)
         d.signal(signal.SIGUSR1)
         t_end = time.time() + deadline
         while True:
